@@ -452,10 +452,9 @@ impl<'ast, 'psess, 'c> ModResolver<'ast, 'psess> {
                     Err(..) => Ok(Some(SubModKind::MultiExternal(mods_outside_ast))),
                 }
             }
-            Err(mod_err) if !mods_outside_ast.is_empty() => {
-                if let ModError::ParserError(e) = mod_err {
-                    e.cancel();
-                }
+            // The default file need not exist when `cfg_attr(.., path = "..")` names the module's
+            // files; any other failure (two candidates for the default file) is still an error.
+            Err(ModError::FileNotFound(..)) if !mods_outside_ast.is_empty() => {
                 Ok(Some(SubModKind::MultiExternal(mods_outside_ast)))
             }
             Err(e) => match e {
